@@ -29,7 +29,9 @@ func (p *Plan) NCalls() int {
 
 // FreshProcess: the library's built-in cache cannot be reset, so a run that
 // uses it must be the first thing that happens in its process.
-func (p *Plan) FreshProcess() bool { return p.CacheKind == CacheDefault || p.Cold }
+func (p *Plan) FreshProcess() bool {
+	return p.CacheKind == CacheDefault || p.CacheKind == CacheMapDirect || p.Cold
+}
 
 // typePool draws n distinct type ids: a few static ones plus dynamic ones.
 func typePool(r *detsim.Rand, n int) []int {
@@ -83,7 +85,7 @@ func tagFor(r *detsim.Rand, t int) string {
 
 func genStructCall(r *detsim.Rand, types []int, overrides bool) Call {
 	t := types[r.Intn(len(types))]
-	c := Call{Type: t, Val: r.Intn(12)}
+	c := Call{Type: t, Val: r.Intn(16)}
 	switch r.Weighted([]int{30, 20, 10, 20, 8, 6, 6, 5}) {
 	case 0:
 		c.Entry = EStruct
@@ -140,7 +142,7 @@ func genAnyCall(r *detsim.Rand, types []int) Call {
 	case 0:
 		return genStructCall(r, types, true)
 	case 1:
-		return Call{Entry: EVar, Val: r.Intn(len(varVals)), Rule: r.Intn(len(varRules))}
+		return genVarCall(r, -1)
 	case 2:
 		return Call{Entry: EVarForFn, Val: r.Intn(len(varVals))}
 	case 3:
@@ -163,8 +165,29 @@ func genAnyCall(r *detsim.Rand, types []int) Call {
 	return Call{Entry: EDump, Type: types[r.Intn(len(types))], Val: r.Intn(12), Shape: r.Intn(3)}
 }
 
+// genVarCall draws a Var call; fam >= 0 restricts the rule to one family of the rule-text swarm.
+func genVarCall(r *detsim.Rand, fam int) Call {
+	c := Call{Entry: EVar, Val: r.Intn(len(varVals)), Rule: r.Intn(len(varRules))}
+	if fam < 0 && len(varFamilies) > 0 && r.Chance(1, 2) {
+		fam = r.Intn(len(varFamilies))
+	}
+	if fam >= 0 {
+		f := varFamilies[fam%len(varFamilies)]
+		c.Rule = f[0] + r.Intn(f[1]-f[0])
+	}
+	return c
+}
+
 func genCache(r *detsim.Rand, p *Plan, allowDefault bool, faults bool) (ntypes int) {
-	switch r.Weighted([]int{50, 6, 15, 10, 8}) {
+	switch r.Weighted([]int{50, 6, 15, 10, 8, 5}) {
+	case 5:
+		if allowDefault {
+			p.CacheKind = CacheMapDirect
+			ntypes = 4 + r.Intn(30)
+		} else {
+			p.CacheKind = CacheMap
+			ntypes = 6
+		}
 	case 0:
 		p.CacheKind, p.CacheCap = CacheLRU, []int{0, 1, 2, 3, 8}[r.Intn(5)]
 		ntypes = 2*p.CacheCap + 3
@@ -192,7 +215,7 @@ func genCache(r *detsim.Rand, p *Plan, allowDefault bool, faults bool) (ntypes i
 			ntypes = 6
 		}
 	}
-	if faults && p.CacheKind != CacheDefault && p.CacheKind != CacheMiss && r.Chance(3, 5) {
+	if faults && p.CacheKind != CacheDefault && p.CacheKind != CacheMapDirect && p.CacheKind != CacheMiss && r.Chance(3, 5) {
 		switch r.Intn(3) {
 		case 0:
 			p.LossPm = []int{50, 300}[r.Intn(2)]
@@ -217,7 +240,7 @@ func GenC08(r *detsim.Rand, tier string) *Plan {
 		p.Cfg.Pool = []simsync.PoolMode{simsync.PoolLIFO, simsync.PoolFIFO, simsync.PoolRandom}[r.Intn(3)]
 	}
 	nt := genCache(r, p, true, true)
-	if p.CacheKind != CacheDefault && p.CacheKind != CacheMiss && r.Chance(1, 6) {
+	if p.CacheKind != CacheDefault && p.CacheKind != CacheMapDirect && p.CacheKind != CacheMiss && r.Chance(1, 6) {
 		p.FlushPm = 30
 	}
 	types := typePool(r, nt)
@@ -301,8 +324,15 @@ func GenC12(r *detsim.Rand, tier string) *Plan {
 		n = nt + 50
 	}
 	calls := make([]Call, 0, 2*n)
+	focus := -1
+	if len(varFamilies) > 0 && r.Chance(1, 4) {
+		focus = r.Intn(len(varFamilies)) // this history keeps returning to one rule family with different arguments
+	}
 	for i := 0; i < n; i++ {
 		c := genAnyCall(r, types)
+		if focus >= 0 && r.Chance(1, 2) {
+			c = genVarCall(r, focus)
+		}
 		if nt > 500 && i < nt && c.IsStruct() {
 			c.Type = types[i]
 		}
